@@ -1,17 +1,18 @@
-\* Documentation only (not run by the check): the bridge AS FOUND against the strict liveness clauses.
-\* TLC reports a lasso for Forgotten / ClosureSeen: ReplaceSource, then an end closes; the s2t copier
-\* stays parked in Read on the replaced connection (stuttering), the tunnel is never unregistered.
+\* Documentation only (not run by the check): the copy loop's retry test looking at Timeout() only, against the
+\* strict liveness clauses.  TLC reports a lasso: an end fails for good with an error that says Timeout(), the other
+\* end is idle - no copier ever ends, closeBridge is never called, the other end never sees the closure, Start never
+\* returns and the tunnel is never forgotten.
 CONSTANTS
   BUF = 3
-  MaxSends = 0
+  MaxSends = 1
   MaxSlow = 5
   Lims = {"none"}
   Classes = {"one"}
   Faults = FALSE
-  Replace = TRUE
+  Replace = FALSE
   ExtCloseOn = FALSE
   DevLimiter = TRUE
-  DevNilFwd = TRUE
+  DevNilFwd = FALSE
   DevStaleSrc = TRUE
   DevSleepLimiter = FALSE
   DevWriteLock = FALSE
@@ -21,9 +22,9 @@ CONSTANTS
   DevIdleSweep = FALSE
   DevFwdNoEof = FALSE
   SrcKinds = {"direct"}
-  ErrClasses = {"plain"}
+  ErrClasses = {"tmo"}
   PollOn = FALSE
-  RetryOn = {}
+  RetryOn = {"tmo"}
   RetryWriteOn = {}
   DevBufio = FALSE
   AttachKinds = {"local"}
